@@ -1,25 +1,240 @@
 #!/usr/bin/env python3
-"""Generates harnesses.json: which proof harness (in which feature configuration) serves which
-property at which tier. Edit here, run, commit the result."""
-import json, re, os
+"""Generates harnesses.json (which Kani proof harness, in which feature configuration of
+/repo, serves which property at which tier) and MANIFEST.json. Edit here, run, commit."""
+import json
+import os
 
+ROOT = os.path.dirname(os.path.abspath(__file__))
 H = []
 
-def add(name, config, primary, quick=(), thorough=(), timeout=1500, mem_gb=14, cost=60, **bounds):
+
+def add(name, config, primary, quick=(), thorough=(), timeout=1500, mem_gb=24, cost=60, **bounds):
     H.append({"name": name, "config": config, "primary": primary, "quick": sorted(set(quick)),
-              "thorough": sorted(set(thorough)), "timeout": timeout, "mem_gb": mem_gb, "cost": cost,
-              "bounds": bounds})
+              "thorough": sorted(set(thorough) - set(quick)), "timeout": timeout, "mem_gb": mem_gb,
+              "cost": cost, "bounds": bounds})
 
-# ---- probe set: everything under pseudo property ALL (used for timing only)
-for fam in ("fam_fut", "fam_stream"):
-    src = open(os.path.join(os.path.dirname(os.path.abspath(__file__)), "harness/src/%s.rs" % fam)).read()
-    names = re.findall(r"(?:crate::proof|sproof|fair_proof)!\((\w+),", src)
-    for n in names:
-        vec = "_vec" in n
-        full = (fam + "::vec_proofs::" if vec else fam + "::") + n
-        cfgs = ["alloc"] if vec else ["nostd"]
-        for c in cfgs:
-            add(full, c, "C04", quick=["ALL" if fam == "fam_fut" else "ALLS"])
 
-json.dump({"harnesses": H, "assumptions": []}, open("harnesses.json", "w"), indent=1)
-print(len(H), "entries")
+GEN = ["C01", "C02", "C03", "C20"]        # generic assertions carried by every schedule harness
+F = "fam_fut::"
+FV = "fam_fut::vec_proofs::"
+S = "fam_stream::"
+SV = "fam_stream::vec_proofs::"
+
+# ------------------------------------------------------------------------------------------
+# futures: join / try_join / race / race_ok           (name, N, rounds, cost)
+fut = {
+    "C04": [("join_arr2_r4", 2, 4, 70), ("join_tup2_r4", 2, 4, 25), ("join_arr0_r1", 0, 1, 12),
+            ("join_tup1_r3", 1, 3, 10), ("join_arr1_r3", 1, 3, 17), ("join_ext2_r4", 2, 4, 25),
+            ("join_arr3_r4", 3, 4, 95), ("join_tup3_r4", 3, 4, 32)],
+    "C05": [("tryjoin_arr2_r4", 2, 4, 76), ("tryjoin_tup2_r4", 2, 4, 24), ("tryjoin_arr0_r1", 0, 1, 12),
+            ("tryjoin_arr3_r4", 3, 4, 105), ("tryjoin_tup3_r4", 3, 4, 46)],
+    "C06": [("race_arr2_r4", 2, 4, 12), ("race_tup2_r4", 2, 4, 8), ("race_tup1_r3", 1, 3, 5),
+            ("race_ext2_r4", 2, 4, 8), ("race_arr3_r5", 3, 5, 16), ("race_tup3_r5", 3, 5, 13)],
+    "C07": [("raceok_arr2_r4", 2, 4, 47), ("raceok_tup2_r4", 2, 4, 18), ("raceok_arr0_r1", 0, 1, 8),
+            ("raceok_arr3_r5", 3, 5, 98), ("raceok_tup3_r5", 3, 5, 47)],
+}
+QUICK_GENERIC = {"join_tup2_r4", "tryjoin_tup2_r4", "race_arr2_r4", "raceok_tup2_r4", "join_arr2_r4"}
+for prop, lst in fut.items():
+    for (n, N, R, cost) in lst:
+        heavy = cost > 80
+        q = [] if heavy else [prop]
+        if n in QUICK_GENERIC:
+            q += ["C01", "C03", "C20"]
+        add(F + n, "nostd", prop, quick=q, thorough=[prop] + ["C01", "C03", "C20"], cost=cost,
+            children=N, rounds=R, pending="unbounded within rounds", container=n.split("_")[1])
+# drop harnesses (C02 primary; they also decide their family's "dropped, never returned" clauses)
+for (n, fam, cost) in [("join_arr2_r3_drop", "C04", 65), ("join_tup2_r3_drop", "C04", 16),
+                       ("tryjoin_arr2_r3_drop", "C05", 71), ("tryjoin_tup2_r3_drop", "C05", 20),
+                       ("race_arr2_r3_drop", "C06", 9), ("raceok_arr2_r3_drop", "C07", 45),
+                       ("raceok_tup2_r3_drop", "C07", 16)]:
+    quick = ["C02"] if cost < 50 else []
+    if fam in ("C05", "C06", "C07") and cost < 50:
+        quick.append(fam)
+    add(F + n, "nostd", "C02", quick=quick, thorough=["C02", "C03", fam], cost=cost, children=2, rounds=3,
+        drop_point="symbolic 0..=3 polls")
+# Vec (alloc configuration)
+for (n, prop, cost, q) in [("join_vec0_r1", "C04", 14, True), ("join_vec2_r3", "C04", 150, True),
+                           ("join_vec2_r4", "C04", 324, False), ("join_vec3_r4", "C04", 358, False),
+                           ("tryjoin_vec0_r1", "C05", 14, True), ("tryjoin_vec2_r3", "C05", 180, True),
+                           ("tryjoin_vec2_r4", "C05", 421, False),
+                           ("race_vec2_r4", "C06", 15, True), ("race_vec3_r5", "C06", 32, True),
+                           ("raceok_vec0_r1", "C07", 7, True), ("raceok_vec2_r3", "C07", 150, True),
+                           ("raceok_vec2_r4", "C07", 279, False)]:
+    add(FV + n, "alloc", prop, quick=[prop] if q else [], thorough=[prop, "C01", "C03", "C20"], cost=cost,
+        container="Vec")
+for (n, fam, cost) in [("join_vec2_r3_drop", "C04", 258), ("raceok_vec2_r3_drop", "C07", 168)]:
+    add(FV + n, "alloc", "C02", quick=[], thorough=["C02", fam], cost=cost, container="Vec",
+        drop_point="symbolic 0..=3 polls")
+
+# ------------------------------------------------------------------------------------------
+# streams
+st = {
+    "C08": [("merge_arr2_k2_r5", 45), ("merge_tup2_k2_r5", 34), ("merge_ext2_k2_r5", 36), ("merge_tup1_k2_r4", 13),
+            ("merge_arr0_r1", 8), ("merge_tup0_r1", 4), ("merge_arr3_k1_r6", 72), ("merge_tup3_k1_r6", 68),
+            ("merge_arr2_k1_r3", 15), ("merge_tup2_k1_r3", 12)],
+    "C09": [("zip_arr2_k2_r5", 75), ("zip_tup2_k2_r5", 61), ("zip_ext2_k2_r5", 61), ("zip_tup1_k2_r4", 19),
+            ("zip_arr3_k1_r5", 121), ("zip_tup3_k1_r5", 96), ("zip_arr2_k1_r3", 20), ("zip_tup2_k1_r3", 18)],
+    "C10": [("chain_arr2_k1_r4", 40), ("chain_tup2_k1_r4", 30), ("chain_ext2_k1_r4", 30), ("chain_arr0_r1", 4),
+            ("chain_arr2_k2_r6", 289), ("chain_tup2_k2_r6", 135), ("chain_arr3_k1_r6", 359), ("chain_tup3_k1_r6", 253)],
+}
+QUICK_GENERIC_S = {"merge_tup2_k2_r5", "zip_arr2_k2_r5", "chain_tup2_k1_r4", "merge_arr2_k2_r5"}
+for prop, lst in st.items():
+    for (n, cost) in lst:
+        q = [prop] if cost <= 80 else []
+        if n in QUICK_GENERIC_S:
+            q += ["C01", "C03"] + (["C20"] if prop != "C10" else [])
+        gen = ["C01", "C03"] + (["C20"] if prop != "C10" else [])
+        add(S + n, "nostd", prop, quick=q, thorough=[prop] + gen, cost=cost)
+for (n, fam, cost) in [("merge_arr2_k2_r4_drop", "C08", 37), ("merge_tup2_k2_r4_drop", "C08", 25),
+                       ("zip_arr2_k2_r4_drop", "C09", 65), ("zip_tup2_k2_r4_drop", "C09", 51),
+                       ("chain_arr2_k2_r4_drop", "C10", 108)]:
+    add(S + n, "nostd", "C02", quick=["C02"] + ([fam] if fam == "C09" else []) if cost < 70 else [],
+        thorough=["C02", "C03", fam], cost=cost, drop_point="symbolic 0..=4 polls")
+for (n, prop, cost, q) in [("merge_vec2_k2_r5", "C08", 62, True), ("merge_vec0_r1", "C08", 10, True),
+                           ("zip_vec2_k2_r5", "C09", 146, True), ("chain_vec2_k1_r4", "C10", 60, True),
+                           ("chain_vec0_r1", "C10", 8, True), ("chain_vec2_k2_r6", "C10", 312, False)]:
+    add(SV + n, "alloc", prop, quick=[prop] if q else [], thorough=[prop, "C01", "C03"], cost=cost, container="Vec")
+for (n, fam, cost) in [("merge_vec2_k2_r4_drop", "C08", 58), ("zip_vec2_k2_r4_drop", "C09", 115)]:
+    add(SV + n, "alloc", "C02", quick=["C02"] if cost < 70 else [], thorough=["C02", fam], cost=cost, container="Vec")
+# wait_until
+add(S + "waituntil_stream_k2_r6", "nostd", "C19", quick=["C19"], thorough=["C19", "C03"], cost=22, rounds=6, items=2)
+add(S + "waituntil_future_r5", "nostd", "C19", quick=["C19"], thorough=["C19", "C03"], cost=11, rounds=5)
+# fairness
+add("unit::indexer_rotation", "nostd", "C17", quick=["C17", "C06"], cost=5, max="1..=16", offset="0..=17 previous calls")
+for (n, cost, q) in [("fair_merge_arr2_r5", 19, True), ("fair_merge_tup2_r5", 17, True),
+                     ("fair_merge_arr3_r7", 76, False), ("fair_merge_tup3_r7", 66, False)]:
+    add(S + n, "nostd", "C17", quick=["C17"] if q else [], thorough=["C17"], cost=cost,
+        favoured="symbolic position, always has an item")
+add(SV + "fair_merge_vec2_r5", "alloc", "C17", quick=["C17"], thorough=["C17"], cost=30)
+
+# ------------------------------------------------------------------------------------------
+# std configuration: readiness tracking really reads bits (C01 wake path, C16)
+STD = ["C01", "C16"]
+add("unit::std_wakers::waker_array_k5", "std", "C01", quick=STD, cost=40, ops=5, slots=2)
+add("unit::std_wakers::waker_array_k7", "std", "C01", thorough=STD, cost=120, ops=7, slots=2)
+add("unit::std_wakers::waker_vec_k5", "std", "C01", quick=STD, cost=300, ops=5, slots="1 -> 3 (resize)")
+add(F + "join_arr2_r4", "std", "C16", quick=STD + ["C04", "C20"], thorough=["C03"], cost=40, children=2, rounds=4)
+add(F + "join_arr2_r3", "std", "C16", quick=[], thorough=STD, cost=30, children=2, rounds=3)
+add(F + "tryjoin_arr2_r3", "std", "C16", quick=STD + ["C05"], thorough=["C03", "C20"], cost=100, children=2, rounds=3)
+add(F + "tryjoin_arr2_r4", "std", "C16", thorough=STD + ["C05", "C03", "C20"], cost=270, children=2, rounds=4)
+add(F + "join_tup2_r3", "std", "C16", quick=STD + ["C04"], thorough=["C03", "C20"], cost=150, children=2, rounds=3)
+add(F + "tryjoin_tup2_r3", "std", "C16", thorough=STD + ["C05", "C03", "C20"], cost=200, children=2, rounds=3)
+add(F + "join_tup2_r4", "std", "C16", thorough=STD + ["C04", "C03", "C20"], cost=300, children=2, rounds=4)
+add(S + "merge_arr2_k1_r3", "std", "C16", quick=STD + ["C08"], thorough=["C03", "C20"], cost=200, children=2, rounds=3)
+add(S + "merge_tup2_k1_r3", "std", "C16", thorough=STD + ["C08", "C03", "C20"], cost=200, children=2, rounds=3)
+add(S + "zip_arr2_k1_r3", "std", "C16", quick=STD + ["C09"], thorough=["C03", "C20"], cost=200, children=2, rounds=3)
+add(S + "zip_tup2_k1_r3", "std", "C16", thorough=STD + ["C09", "C03", "C20"], cost=200, children=2, rounds=3)
+add(S + "merge_arr2_k2_r5", "std", "C16", thorough=STD + ["C08", "C03", "C20"], cost=830, timeout=2400, children=2, rounds=5)
+add(S + "merge_tup2_k2_r5", "std", "C16", thorough=STD + ["C08", "C03", "C20"], cost=830, timeout=2400, children=2, rounds=5)
+add(S + "zip_arr2_k2_r5", "std", "C16", thorough=STD + ["C09", "C03", "C20"], cost=660, timeout=2400, children=2, rounds=5)
+# pass-through combinators in std (same code, but run once with the std waker types linked in)
+add(F + "race_arr2_r4", "std", "C06", thorough=["C06", "C01", "C03"], cost=20)
+add(S + "fair_merge_arr2_r5", "std", "C17", thorough=["C17"], cost=300)
+
+# ------------------------------------------------------------------------------------------
+# concurrent-stream adapters (alloc)
+C = "fam_costream::"
+for (n, cost, q) in [("co_take_l2", 170, True), ("co_take_l0", 10, True), ("co_take_l1", 40, True),
+                     ("co_enumerate_l2", 100, True), ("co_map_l2", 120, True),
+                     ("co_enumerate_take_l2", 250, True), ("co_take_enumerate_l2", 250, False),
+                     ("co_map_take_l2", 300, False), ("co_take_map_l2", 300, False), ("co_take_take_l2", 250, True),
+                     ("co_limit_map_take_l2", 300, False), ("co_enumerate_map_take_l2", 400, False),
+                     ("co_take_enumerate_map_l2", 400, False), ("co_limit_forwarding", 5, True),
+                     ("co_take_l3", 600, False), ("co_enumerate_take_l3", 900, False)]:
+    add(C + n, "alloc", "C15", quick=["C15"] if q else [], thorough=["C15"], cost=cost, timeout=2400,
+        source_len=n[-1] if n[-2] == "l" else "n/a", n="symbolic 0..=3", pending_per_item="0..=1")
+
+ASSUMPTIONS = [
+    "bounded: every claim holds only for the children / rounds / items / history lengths listed per harness (unwinding assertions are on, so a bound that is too small is reported, not silently truncated)",
+    "Kani 0.68 models panics as the end of the path: no unwinding, so the panic-in-child clause of C02 is outside the claim",
+    "Kani is sequential: wake-ups from another thread are covered only through the reduction argued in DESIGN.md section 2.6 (every wake is an atomic lock/set/unlock action)",
+    "std configuration stubs: std::sync::Mutex::lock -> try_lock (WouldBlock reported as deadlock); core::array::from_fn -> write loop; Waker::wake_by_ref -> clone().wake() with a concrete recursion guard; Arc::drop_slow -> reported (std schedule harnesses leak the combinator instead of dropping it)",
+    "--no-assertion-reach-checks: vacuity is guarded by explicit kani::cover! witnesses per harness instead of Kani's per-assertion reachability checks (which made every run 10-30x slower)",
+    "reads of uninitialised memory are detected only through their consequences (wrong value, drop accounting), not as such (-Z uninit-checks ICEs on this image)",
+    "scripted children never return Ready/None twice; everything else they do is a solver variable",
+]
+
+
+def main():
+    json.dump({"harnesses": H, "assumptions": ASSUMPTIONS}, open(os.path.join(ROOT, "harnesses.json"), "w"), indent=1)
+    props = sorted({p for h in H for p in h["quick"] + h["thorough"]})
+    print(len(H), "entries;", "properties:", " ".join(props))
+    for p in props:
+        q = [h for h in H if p in h["quick"]]
+        t = [h for h in H if p in h["quick"] or p in h["thorough"]]
+        print("  %s quick=%d (cost %d) thorough=%d (cost %d)" % (p, len(q), sum(h["cost"] for h in q), len(t), sum(h["cost"] for h in t)))
+
+
+# ------------------------------------------------------------------------------------------
+# MANIFEST.json
+
+LEVEL = {
+    "category": "model_checking",
+}
+
+TEXT = {
+    "C01": "Bounded model checking (Kani/CBMC) of the real poll/wake code: scripted children whose every decision (Pending, self-wake, wake a sibling, Ready/item/None) and every between-poll wake-up is a solver variable; asserts the lost-wake invariant W after every Pending poll and fire phase, that woken children are polled, and that no wake panics or re-locks; plus unit proofs of the real WakerArray/WakerVec (std).",
+    "C02": "BMC with drop-accounting tokens: every scripted child and every value carries a counter checked at its Drop (double drop fails at the drop site) and at the end (leak), with the combinator dropped after a solver-chosen number of polls (0, mid-flight, after completion).",
+    "C03": "BMC: the scripted children assert inside poll that they are polled only inside their owner's poll, never after Ready/None, never after the combinator decided, never after removal - in every schedule harness, including stale wake-ups fired after completion.",
+    "C04": "BMC of join over tuple/array/Vec: Ready exactly in the poll in which the last child resolves, each output at its child's position, zero children resolve on the first poll.",
+    "C05": "BMC of try_join: Ok iff all Ok (positional); the error returned is the first one observed, in that poll; nothing polled afterwards; produced values dropped, never returned.",
+    "C06": "BMC of race: resolves in the first poll in which a child resolves, with the first child seen to resolve; nothing polled afterwards; losers dropped unfinished; plus the real Indexer proved to be a rotation.",
+    "C07": "BMC of race_ok: first Ok wins in that poll; Err only when the last child fails, aggregate positional; failed children never re-polled; zero futures give the empty aggregate.",
+    "C08": "BMC of merge: every item exactly once and in its input's order, None iff all inputs ended (first poll for zero inputs), never Pending in a poll in which an input produced an item.",
+    "C09": "BMC of zip: k-th row = k-th items positionally, None in the poll in which an input ends, at most one extra item taken per input, unmatched items dropped not yielded.",
+    "C10": "BMC of chain: output is the concatenation in input order; an input is not polled before all earlier inputs returned None; None after the last input (first poll for zero inputs).",
+    "C15": "BMC of the real Take/Enumerate/Map/Limit adapters (and their private consumers/futures) between a harness source and sink through the public ConcurrentStream/Consumer traits: exactly the first min(n,len) items, none for n = 0, enumerate index = source position, map closure once per item, limit forwarding.",
+    "C16": "BMC in the std configuration: scripted children assert that a re-poll after Pending only happens if one of their wakers fired (or they were legitimately re-armed after yielding); unit proofs show that only a wake of sub-waker i sets bit i and that an already-ready child does not wake the task again.",
+    "C17": "Unit proof that the real Indexer::iter yields the rotation (offset+k) mod max for every max in 1..=16 and every offset, plus merge-level BMC with an always-ready input at a solver-chosen position: never N consecutive items without one of its items.",
+    "C19": "BMC of wait_until (future and stream): inner not polled before the deadline resolved, deadline never polled afterwards, inner polled in the very poll in which the deadline resolves, afterwards identical to the inner.",
+    "C20": "BMC: after every poll that returns Pending every owned child has been polled at least once; children may stay Pending forever (no pending budget), and the family oracles still require the siblings' results to be delivered.",
+}
+
+NOTE = "Trusted: rustc/Kani 0.68 code generation, CBMC 6.11 + CaDiCaL, std's Mutex/Arc/BTreeSet; stubs listed in DESIGN.md section 2.5; bounds per harness in harnesses.json (N <= 3 children, <= 7 polls, <= 7 items); no unwinding (panic = end of path); sequential execution."
+
+NA = [
+    ("C11", "FutureGroup keeps its key set in a BTreeSet<usize> (a BTreeMap with zero-sized values): CBMC loses pointer precision on the node arrays of zero-sized values and explores node splits/merges that cannot happen; even a 2-step history (insert, poll) did not finish in 15 min / 30 GB. The property is left undecided rather than decided on a model of the group."),
+    ("C12", "StreamGroup: same BTreeSet (plus SmallVec removal queue) obstacle as C11; no history harness finished within 15 min / 30 GB."),
+    ("C13", "for_each is only reachable through futures_buffered::FuturesUnordered (spin mutex, diatomic-waker try-lock loops, intrusive waker slab): a single poll of a 2-item for_each exhausted 14 GB in CBMC; replacing it by a model would decide the model, not the code."),
+    ("C14", "try_for_each / collect::<Result<Vec<_>,_>>: same FuturesUnordered dependency as C13; not encodable within the sandbox's memory."),
+    ("C18", "Send/Sync propagation is decided by rustc's trait solver parametrically at compile time; there is no execution to make symbolic and no SMT query to pose - a type check is a different technique from the one this task studies."),
+]
+
+
+def manifest():
+    props = sorted({p for h in H for p in h["quick"] + h["thorough"]})
+    checks = []
+    for p in props:
+        checks.append({
+            "property_id": p,
+            "quick_cmd": "./check %s --tier quick" % p,
+            "thorough_cmd": "./check %s --tier thorough" % p,
+            "evidence_file": "evidence/%s.json" % p,
+            "replay_cmd_template": "./check --replay {path}",
+            "engine": "kani-cbmc",
+            "level_claimed": {"category": "model_checking", "text": TEXT[p], "design_ref": "DESIGN.md section 5, " + p},
+            "level_note": NOTE,
+            "technique": "bounded model checking of the real Rust code: Kani 0.68 -> CBMC 6.11 -> CaDiCaL (SAT), symbolic schedules/inputs via kani::any(), unwinding assertions on, kani::cover! vacuity witnesses, native concrete-playback replay",
+        })
+    m = {
+        "version": 1,
+        "setup_cmd": "./setup.sh",
+        "hooks": {
+            "guard": "futures_concurrency_verif (unused: no hook was needed)",
+            "enable": "none - harness crate /verif/harness depends on /repo by path; private utilities are compiled through #[path]",
+            "baseline_off_cmd": "cd /repo && cargo test --workspace --no-fail-fast --offline",
+            "source_commits": [],
+            "add_only": True,
+        },
+        "engines": [{"name": "kani-cbmc", "path": "/verif/check", "serves_properties": props,
+                     "kind_free_text": "Kani 0.68.0 proof harnesses (/verif/harness) over the real crate, CBMC 6.11.0 with CaDiCaL; driver /verif/check; registry /verif/harnesses.json"}],
+        "checks": checks,
+        "not_applicable": [{"property_id": p, "reason": r} for p, r in NA],
+        "notes": "Genuine defects found and repaired in /repo with 'fix:' commits are listed in known_findings.txt (merge of zero streams, take(0)). Results of identical (tree, harness) pairs are cached under work/cache keyed by a hash of /repo's working tree and the harness sources, so that properties sharing a harness do not re-run it; any edit to /repo or /verif/harness invalidates the cache.",
+    }
+    json.dump(m, open(os.path.join(ROOT, "MANIFEST.json"), "w"), indent=1)
+
+
+if __name__ == "__main__":
+    main()
+    manifest()
